@@ -110,6 +110,23 @@ impl Property for C14 {
             "path": case.cfg.path, "input": case.cfg.input,
         })
     }
+    fn extra(&self, tier: Tier, _seed: u64, ctx: &mut Ctx, stats: &mut Stats) -> Vec<(Value, Failure)> {
+        // merged tokens of thousands of plain tokens: digit runs and katakana runs whose byte length sits on
+        // both sides of 2^8, 2^12, 2^15 (ranges are 16-bit) up to the input limit
+        let (dic, cfg) = crate::props::c03::fallback_world_pub();
+        let lens: Vec<u32> = match tier {
+            Tier::Quick => vec![255, 256, 257, 4096, 32_766, 32_767, 32_768, 32_769, 49_149],
+            Tier::Thorough => vec![127, 128, 255, 256, 257, 1023, 1024, 4095, 4096, 4097, 16_383, 16_384, 32_766, 32_767, 32_768, 32_769, 32_770, 40_000, 49_148, 49_149],
+        };
+        let mut fam: Vec<(String, Case)> = Vec::new();
+        for n in lens {
+            fam.push((format!("{} digits", n), Case { dic: dic.clone(), cfg: cfg.clone(), texts: vec![vec![Piece::Rep("1".into(), n)]] }));
+            fam.push((format!("{} digits after a word", n - 2), Case { dic: dic.clone(), cfg: cfg.clone(), texts: vec![vec![Piece::Raw("a。".into()), Piece::Rep("1".into(), n.saturating_sub(6)), Piece::Raw("a".into())]] }));
+            fam.push((format!("{} bytes of katakana", n / 3 * 3), Case { dic: dic.clone(), cfg: cfg.clone(), texts: vec![vec![Piece::Rep("ア".into(), n / 3)]] }));
+            fam.push((format!("{} bytes of digit groups", n / 4 * 4), Case { dic: dic.clone(), cfg: cfg.clone(), texts: vec![vec![Piece::Raw("1".into()), Piece::Rep(",111".into(), n / 4 - 1)]] }));
+        }
+        run_family(self, ctx, stats, "long-merges", fam)
+    }
     fn check(&self, case: &Case, ctx: &mut Ctx) -> Report {
         let mut rep = Report::default();
         let mut plain = case.cfg.clone();
